@@ -501,6 +501,23 @@ def parseWKTProjection (sr : SR α) (d : Str) : SR α :=
   if d.contains ',' then { sr with name := trim isQuoteOrSpace ((splitOn ',' d).headD []) }
   else { sr with name := trim isQuote d }
 
+/-- the `switch name` of `parseWKTParameter` -/
+def paramSet (sr : SR α) (name : Str) (val : α) : Res α :=
+  let r := mul val deg2rad
+  if name = s "standard_parallel_1" then ok { sr with lat1 := r }
+  else if name = s "standard_parallel_2" then ok { sr with lat2 := r }
+  else if name = s "false_easting" then ok { sr with x0 := val }
+  else if name = s "false_northing" then ok { sr with y0 := val }
+  else if name = s "latitude_of_origin" then ok { sr with lat0 := r }
+  else if name = s "central_parallel" then ok { sr with lat0 := r }
+  else if name = s "scale_factor" then ok { sr with k0 := val }
+  else if name = s "latitude_of_center" then ok { sr with lat0 := r }
+  else if name = s "longitude_of_center" then ok { sr with longC := r }
+  else if name = s "central_meridian" then ok { sr with long0 := r }
+  else if name = s "azimuth" then ok { sr with alpha := r }
+  else if name = s "auxiliary_sphere_type" || name = s "rectified_grid_angle" then ok sr
+  else fail sr "parseWKTParameter: unknown name"
+
 def parseWKTParameter (sr : SR α) (d : Str) : Res α :=
   let v := splitOn ',' d
   let name := trim isQuote (toLower (v.headD []))
@@ -510,21 +527,7 @@ def parseWKTParameter (sr : SR α) (d : Str) : Res α :=
     match parseFloat (α := α) (trimSpace v1) with
     | .error (.unsupported m) => (sr, some (.unsupported m))
     | .error _ => fail sr "parseWKTParameter"
-    | .ok val =>
-      let r := mul val deg2rad
-      if name = s "standard_parallel_1" then ok { sr with lat1 := r }
-      else if name = s "standard_parallel_2" then ok { sr with lat2 := r }
-      else if name = s "false_easting" then ok { sr with x0 := val }
-      else if name = s "false_northing" then ok { sr with y0 := val }
-      else if name = s "latitude_of_origin" then ok { sr with lat0 := r }
-      else if name = s "central_parallel" then ok { sr with lat0 := r }
-      else if name = s "scale_factor" then ok { sr with k0 := val }
-      else if name = s "latitude_of_center" then ok { sr with lat0 := r }
-      else if name = s "longitude_of_center" then ok { sr with longC := r }
-      else if name = s "central_meridian" then ok { sr with long0 := r }
-      else if name = s "azimuth" then ok { sr with alpha := r }
-      else if name = s "auxiliary_sphere_type" || name = s "rectified_grid_angle" then ok sr
-      else fail sr "parseWKTParameter: unknown name"
+    | .ok val => paramSet sr name val
 
 def parseWKTPrimeM (sr : SR α) (d : Str) : Res α :=
   let v := splitOn ',' d
